@@ -1437,8 +1437,9 @@ func (self *Analyzer) matchExpression(node pAst.MatchExpression) ast.AnalyzedMat
 		containsDefault := false
 		for _, lit := range arm.Literals {
 			if !lit.IsLiteral() {
+				// (the action was analysed above: analysing it again doubles its diagnostics and, with
+				// nested default arms, the work at every level)
 				defaultArmSpan = &arm.Range
-				action := self.expression(arm.Action)
 				defaultArm = &action
 				containsDefault = true
 			}
